@@ -225,7 +225,7 @@ def main(argv=None):
     spool = None
     if tier in getattr(mod, 'SUITE_TIERS', ()) and not args.cases:
         from harness import suite
-        spool, suite_info = suite.prepare(args.jobs)
+        spool, suite_info = suite.prepare(args.jobs, twin=bool(getattr(mod, 'SUITE_TWIN', False)))
         os.environ['VERIF_SUITE_SPOOL'] = spool
         count += suite.NSLOTS
     try:
